@@ -457,6 +457,27 @@ def c15_require(agg):
     return need
 
 
+# ------------------------------------------------------------------ C16
+
+def c16_plan(tier, seed):
+    q = tier == "quick"
+    out = jobs("os-debug", "c16", 10 if q else 20, None, {"cases": 400 if q else 8000}, timeout=3000)
+    out += jobs("os-release", "c16", 5 if q else 10, None, {"cases": 400 if q else 8000}, timeout=3000)
+    out += jobs("memfd-debug", "c16", 1 if q else 4, None, {"cases": 400 if q else 8000}, timeout=3000)
+    return out
+
+
+def c16_require(agg):
+    st = agg["stats"]
+    need = []
+    for k in ("input_random-bytes", "input_valid", "input_mutated-valid", "input_tampered-indices", "input_other-type", "input_receive-and-drop"):
+        if st.get(k, 0) < 300:
+            need.append("%s < 300" % k)
+    if st.get("outcome_ok", 0) < 300 or st.get("outcome_err", 0) < 300:
+        need.append("fewer than 300 Ok or Err outcomes")
+    return need
+
+
 # ------------------------------------------------------------------ C19
 
 def c19_plan(tier, seed):
@@ -510,6 +531,23 @@ NOTES = ("Runtime monitoring and sanitizers. ./check <id> rebuilds the harness (
 NOT_APPLICABLE = {}
 
 PROPS = {
+    "C16": {
+        "plan": c16_plan,
+        "require": c16_require,
+        "level": "exploration",
+        "level_text": "Exploration: raw (bytes, channels, regions) triples are injected at platform level into a channel whose receiver is re-typed for each of 13 expected "
+                      "types (integers, strings, vectors, option, enum, sender, receiver, region, a struct nesting vectors of endpoints/regions, a pair of senders): random "
+                      "bytes 0..4096, valid encodings, bit-flipped / truncated / extended / overwritten encodings, encodings with out-of-range, far, usize::MAX and duplicate "
+                      "attachment indices, valid encodings of another type, each with 0..8 attachments, decoded through try_recv and through a receiver set, plus "
+                      "receive-and-drop without decoding. The outcome must be Ok or Err - no panic (hook + catch_unwind), no abort (exit status with a journal of the last "
+                      "input); endpoints in an Ok value are identity-probed against the attached set; afterwards every attachment's counterpart must observe closure and "
+                      "the descriptor count must match. Debug, release and memfd builds.",
+        "level_note": "OS transports only (the in-process backend panics on type confusion by design and is outside the property's anchors). A receiving end referenced "
+                      "where a sender is expected is an attached endpoint and only counted as unverifiable.",
+        "technique": "runtime monitoring: platform-level message injection (structured fuzzing of encodings and attachment indices) with panic/abort, identity-probe and release oracles",
+        "rule": "case = one injected message; distinct = (expected type, input kind, index tampering mode, min(channels,3), min(regions,3), receive path, length bucket); all are non-trivial",
+        "assumptions": ["platform-level zero-length regions are excluded here and covered by C18"],
+    },
     "C15": {
         "plan": c15_plan,
         "require": c15_require,
